@@ -118,8 +118,9 @@ func rebase(ref *Ref, v *url.URL, notEqual bool) (Ref, bool) {
 		return *ref, false
 	}
 
-	if u.Scheme != fileScheme && u.RawQuery == "" && v.RawQuery != "" {
-		// a relative $ref inherits the query of its base: a target without query can't be expressed relatively
+	if u.Scheme != fileScheme && u.RawQuery != v.RawQuery {
+		// a relative $ref always inherits the query of its base (see normalizeURI): a target with another
+		// query (or none) can't be expressed relatively. For local files the query is irrelevant.
 		return *ref, false
 	}
 
@@ -133,11 +134,6 @@ func rebase(ref *Ref, v *url.URL, notEqual bool) (Ref, bool) {
 	}
 
 	newBase.Fragment = u.Fragment
-	if u.Scheme != fileScheme && u.RawQuery != v.RawQuery {
-		// the query is part of the target's location (but for local files, where it is irrelevant):
-		// keep it, unless inherited from the base
-		newBase.RawQuery = u.RawQuery
-	}
 
 	if strings.HasPrefix(u.Path, docPath) {
 		newBase.Path = strings.TrimPrefix(u.Path, docPath)
